@@ -13,7 +13,24 @@ IDENTS = [
     # names that differ only in letter case / only after snake-casing, and names the templates or the prelude also use
     "Mb", "MB", "Ok", "OK", "Io_Error", "IO_ERROR", "SetUp", "Setup", "LogIn", "Login", "FooBar", "Foobar",
     "Err", "None", "Some", "Error", "Result", "Item", "Output", "Default", "Iter", "Table", "Discriminant", "Value",
+    "V1", "V_1", "rustLang", "r2_d2", "ring_road", "rr",
 ]
+RAW_KEYWORDS = ["type", "match", "fn", "loop", "async", "mod", "struct", "use", "move", "ref"]
+
+
+def rawify(r, spec, explicit_names, prob=0.15):
+    """Turn one variant identifier into a raw identifier (r#type, ...).  How strum NAMES such a variant is not pinned by any
+    property, so where names matter the variant gets an explicit to_string (explicit_names=True)."""
+    if not spec.variants or r.random() >= prob:
+        return None
+    v = r.choice(spec.variants)
+    kw = r.choice(RAW_KEYWORDS)
+    if any(o.ident in ("r#" + kw, kw) for o in spec.variants) or v.default or v.transparent:
+        return None
+    v.ident = "r#" + kw
+    if explicit_names and not v.serialize and v.to_string is None:
+        v.to_string = "raw-" + kw
+    return v
 
 FIELD_NAMES = ["f", "s", "x", "idx", "value", "prop", "field0", "a", "b", "name", "inner", "fmt", "val", "self_", "other", "n", "y", "z"]
 
